@@ -41,6 +41,7 @@ Definition reader_step (wt : bool) (op : val) (st : rstate) : option (val * rsta
     Some (robs [VB d; VZ (blen d); VZ e] s', (s', -1))
   | VL [VZ 10] => let '(r, size, e, s', lrs') := rd_rune s in Some (robs [VZ r; VZ size; VZ e] s', (s', lrs'))
   | VL [VZ 11] => let '(e, s', lrs') := rd_unread_rune s lrs in Some (robs [VZ e] s', (s', lrs'))
+  | VL [VZ 12] => let '(pb, s') := rd_reset s in Some (robs [VZ pb] s', (s', -1))
   | _ => None
   end.
 Fixpoint reader_run (wt : bool) (ops : list val) (st : rstate) {struct ops} : option (list val) :=
@@ -56,6 +57,7 @@ Fixpoint reader_run (wt : bool) (ops : list val) (st : rstate) {struct ops} : op
 Definition writer_step (rf : bool) (op : val) (s : writer) : option (val * writer) :=
   match op with
   | VL [VZ 7; VZ r] => let '(n, e, s') := w_write_rune r s in Some (wobs [VZ n; VZ e] s', s')
+  | VL [VZ 5] => let '(out, s') := w_reset s in Some (wobs [VB out] s', s')
   | VL [VZ 1; VB d] => let '(n, e, s') := w_write d s in Some (wobs [VZ n; VZ e] s', s')
   | VL [VZ 2; VZ c] => let '(e, s') := w_write_byte c s in Some (wobs [VZ e] s', s')
   | VL [VZ 3; VB d] => let '(n, e, s') := w_write_string d s in Some (wobs [VZ n; VZ e] s', s')
@@ -129,10 +131,20 @@ Definition reader_op_ok (stream : bytes) (pos pos' : Z) (op : val) (ret : list v
   | VL [VZ 11], [VZ e] => if e =? 0 then (1 <=? pos - pos') && (pos - pos' <=? 4) else pos' =? pos
   | _, _ => false
   end.
+Definition is_reset (op : val) : bool := match op with VL [VZ 12] => true | _ => false end.
+Definition is_wreset (op : val) : bool := match op with VL [VZ 5] => true | _ => false end.
 Fixpoint prop_reader (stream : bytes) (pos : Z) (ops obs : list val) {struct ops} : bool :=
   match ops, obs with
   | [], [] => true
   | op :: ops', VL [VL ret; VZ total; VZ pulled; VZ buffd] :: obs' =>
+    if is_reset op then
+      (* Reset: everything restarts at zero on the part of the stream the source has not handed out yet *)
+      match ret with
+      | [VZ pb] => (total =? 0) && (pulled =? 0) && (buffd =? 0) && (pos <=? pb) && (pb <=? blen stream) &&
+                   prop_reader (skipn (Z.to_nat pb) stream) 0 ops' obs'
+      | _ => false
+      end
+    else
     let pos' := pulled - buffd in
     (total =? pos') && (0 <=? buffd) && (pulled <=? blen stream) &&
     reader_op_ok stream pos pos' op ret && prop_reader stream pos' ops' obs'
@@ -165,6 +177,14 @@ Fixpoint prop_writer (acc : bytes) (sunk : Z) (ops obs : list val) {struct ops} 
   match ops, obs with
   | [], [VB out] => (blen out =? sunk) && is_prefix out acc
   | op :: ops', VL [VL ret; VZ total; VZ sunk'; VZ buffd] :: obs' =>
+    if is_wreset op then
+      (* Reset: the old sink holds exactly a prefix of what was accepted; counting restarts on the new sink *)
+      match ret with
+      | [VB out] => (blen out =? sunk) && is_prefix out acc && (total =? 0) && (sunk' =? 0) && (buffd =? 0) &&
+                    prop_writer [] 0 ops' obs'
+      | _ => false
+      end
+    else
     match writer_op_acc op ret with
     | None => false
     | Some (a, e, is_flush) =>
